@@ -557,7 +557,8 @@ def finish(ctx, cfg):
         # statement of the property, vs the model) on the shrunk case
         d = payload.get("first_divergence")
         exp = payload["spec"] if monitor == "spec" else payload["model"]
-        is_fail = d is not None and d < len(exp) and payload["impl"][d] != exp[d]
+        impl_d = payload["impl"][d] if d is not None and d < len(payload["impl"]) else "<no-output>"   # hung / crashed there
+        is_fail = d is not None and d < len(exp) and impl_d != exp[d]
         if payload.get("monitor_failed") is not None:
             is_fail = payload["monitor_failed"]
         if is_fail:
